@@ -120,9 +120,9 @@ def _from_family(item: dict, ch: core.Chooser) -> List[dict]:
     if act == "set":
         inner.append({"k": "set", "kw": _kw(ch.sub("set"))})
     elif act == "set_invalid":
-        inner.append({"k": "set_invalid", "kw": _kw(ch.sub("si"), 0, 2), "bad": ch.choice(BAD_KEYS), "bad_first": ch.chance(0.5)})
+        inner.append({"k": "set_invalid", "kw": _kw(ch.sub("si"), 0, 2), "bad": ch.choice(BAD_KEYS), "bad_first": ch.chance(0.5), "full_table": ch.sub("full").chance(0.25)})
     elif act == "enter_invalid":
-        inner.append({"k": "enter_invalid", "kw": _kw(ch.sub("ei"), 0, 2), "bad": ch.choice(BAD_KEYS), "bad_first": ch.chance(0.5)})
+        inner.append({"k": "enter_invalid", "kw": _kw(ch.sub("ei"), 0, 2), "bad": ch.choice(BAD_KEYS), "bad_first": ch.chance(0.5), "full_table": ch.sub("full").chance(0.25)})
     elif act.startswith("get_mutate"):
         inner.append({"k": "get_mutate", "which": act.split(":")[1]})
     if ex.startswith("raise:"):
@@ -173,9 +173,9 @@ def _random_body(ch: core.Chooser, depth: int, budget_: List[int]) -> List[dict]
         elif kind == "set":
             body.append({"k": "set", "kw": _kw(c.sub("kw"))})
         elif kind == "set_invalid":
-            body.append({"k": "set_invalid", "kw": _kw(c.sub("kw"), 0, 3), "bad": c.choice(BAD_KEYS), "bad_first": c.chance(0.5)})
+            body.append({"k": "set_invalid", "kw": _kw(c.sub("kw"), 0, 3), "bad": c.choice(BAD_KEYS), "bad_first": c.chance(0.5), "full_table": c.sub("full").chance(0.25)})
         elif kind == "enter_invalid":
-            body.append({"k": "enter_invalid", "kw": _kw(c.sub("kw"), 0, 3), "bad": c.choice(BAD_KEYS), "bad_first": c.chance(0.5)})
+            body.append({"k": "enter_invalid", "kw": _kw(c.sub("kw"), 0, 3), "bad": c.choice(BAD_KEYS), "bad_first": c.chance(0.5), "full_table": c.sub("full").chance(0.25)})
         elif kind == "set_badvalue":
             body.append({"k": "set_badvalue", "kw": {k: v for k, v in _kw(c.sub("kw"), 1, 3).items() if k != "varname_filter"}, "bad_first": c.chance(0.4), "enter": c.chance(0.5)})
         elif kind == "get_mutate":
@@ -302,6 +302,11 @@ class Interp:
 
     def _kwargs(self, node: dict, with_bad: bool) -> dict:
         kw = dict(node.get("kw", {}))
+        if with_bad and node.get("full_table"):
+            # the unknown name comes along with a value for every known one (a caller that edits a copy of the whole
+            # table and hands it back)
+            kw = {**self.np.get_options(), **kw}
+            self.bump("probe:unknown_name_with_complete_table")
         if with_bad:
             # the value given to the unknown name: anything, including None and values equal to "nothing"
             bad_value = [1, None, False, "", 0, 1][core.H(self.rs, "badvalue", node.get("id")) % 6]
